@@ -518,5 +518,9 @@ Definition f27_class (o : toracles) (r : record) : bool :=
 Definition finding_class (o : toracles) (serial : N) (r : record) : bool :=
   f12_class serial r || f26_class o r || f27_class o r.
 
+(* a '.' record carries the codec serial it was parsed under (the derived SOA uses it) *)
+Definition dot_serial_okb (serial : N) (r : record) : bool :=
+  match r with RDot _ _ _ _ _ ser => ser =? serial | _ => true end.
+
 Definition wf_lineb (o : toracles) (serial : N) (l : bytes) : bool :=
-  match parse_line o serial l with Ok r => wf_recordb o r | Err _ => false end.
+  match parse_line o serial l with Ok r => wf_recordb o r && dot_serial_okb serial r | Err _ => false end.
